@@ -412,7 +412,48 @@ def check_lookahead(repo, scratch):
     return res
 
 
-CHECKS = {"lookahead": check_lookahead, "atom_ord": check_atom_ord, "atom_guards": check_atom_guards, "cmp_instrs": check_cmp_instrs, "switch_routes": check_switch_routes, "arith_tables": check_arith_tables}
+def check_dynamic_dead_end(repo, scratch):
+    """C06 (dynamic predicates): the three dispatch arms that walk a chain of dynamic clauses
+    (DynamicElse, DynamicInternalElse, DynamicIndexedChoice) may be re-entered by backtracking at a clause
+    with no living successor (the clause look-ahead skips non-matching clauses without looking at their
+    death stamps). In that case the choice point must be removed before failing; failing alone makes
+    backtrack() return to the same instruction forever."""
+    base = "structural::dynamic_dead_end::"
+    names = ["DynamicElse", "DynamicInternalElse", "DynamicIndexedChoice"]
+    res = {"obligations": [base + n for n in names], "failed": [], "undecided": [],
+           "assumptions": ["[structural:dynamic_dead_end] trust_me() removes the top choice point (read, not verified)"],
+           "functions": [{"name": "Machine::dispatch_loop (arms DynamicElse, DynamicInternalElse, DynamicIndexedChoice)", "file": "src/machine/dispatch.rs", "engine": "structural", "unit": "dynamic_dead_end", "under_contract": True}]}
+    path = os.path.join(repo, "src/machine/dispatch.rs")
+    try:
+        t = " ".join(x.text for x in _sig(lex(open(path, encoding="utf-8").read())))
+    except OSError:
+        res["undecided"].append(base + ": dispatch.rs not found"); return res
+    def _n(src):
+        return " ".join(x.text for x in _sig(lex(src)))
+    starts = {"DynamicElse": _n("&Instruction::DynamicElse(..) => {"), "DynamicInternalElse": _n("&Instruction::DynamicInternalElse(..) => {"),
+              "DynamicIndexedChoice": _n("IndexingLine::DynamicIndexedChoice(_) => { let p = self.machine_st.p; match self.find_living_dynamic(")}
+    end = _n("self.machine_st.dynamic_mode = FirstOrNext::Next;")
+    good = _n("None => { if let FirstOrNext::Next = self.machine_st.dynamic_mode { self.trust_me(); } self.machine_st.fail = true; } }") + " " + end
+    bad = _n("None => { self.machine_st.fail = true; } }") + " " + end
+    for n in names:
+        i = t.find(starts[n])
+        if i < 0:
+            res["undecided"].append(base + n + ": arm not recognised (lost anchor)"); continue
+        j = t.find(end, i)
+        if j < 0:
+            res["undecided"].append(base + n + ": end of arm not recognised (lost anchor)"); continue
+        arm = t[i:j + len(end)]
+        if arm.endswith(good):
+            continue
+        if arm.endswith(bad):
+            res["failed"].append({"obligation": base + n, "engine": "structural", "source": "dispatch_loop, arm " + n, "at": "src/machine/dispatch.rs",
+                                  "message": "re-entered by backtracking with no living clause left, the arm only sets fail: the choice point stays and backtrack() re-enters the arm forever (call never returns)"})
+        else:
+            res["undecided"].append(base + n + ": dead-end branch not recognised")
+    return res
+
+
+CHECKS = {"dynamic_dead_end": check_dynamic_dead_end, "lookahead": check_lookahead, "atom_ord": check_atom_ord, "atom_guards": check_atom_guards, "cmp_instrs": check_cmp_instrs, "switch_routes": check_switch_routes, "arith_tables": check_arith_tables}
 
 
 def run(names, repo, scratch=None):
